@@ -9,6 +9,7 @@ import (
 	"fmt"
 	"os"
 	"path/filepath"
+	"regexp"
 	"strings"
 	"time"
 
@@ -335,19 +336,28 @@ func (sc *Scenario) confirm(choices []vrt.Choice, msg string) Violation {
 			v.Log = r.Log
 			break
 		}
-		obs := m + "\x00" + strings.Join(r.Log, "\x00")
+		// the source position of a blocked thread is only captured by the verbose (first) replay
+		obs := whereRE.ReplaceAllString(m, "@;") + "\x00" + strings.Join(r.Log, "\x00")
 		if i == 0 {
+			if whereRE.ReplaceAllString(m, "@;") == whereRE.ReplaceAllString(msg, "@;") {
+				v.Message = m
+			}
 			first = obs
 			v.Log = r.Log
 			v.Listing = r.Listing
 		} else if obs != first {
 			v.Message = "INFRA: nondeterministic replay (" + msg + ")"
+			if os.Getenv("VERIF_DEBUG_CONFIRM") != "" {
+				fmt.Fprintf(os.Stderr, "confirm divergence run %d:\n first: %q\n now:   %q\n", i, first, obs)
+			}
 			break
 		}
 	}
 	v.Sig = signature(sc.Name, v.Message)
 	return v
 }
+
+var whereRE = regexp.MustCompile(`@[^; ]*;`)
 
 // signature identifies a failure by scenario and the shape of its message (digits normalised).
 func signature(scenario, msg string) string {
